@@ -11,14 +11,16 @@ Pats(n, e) == IF n = 0 /\ e = 0 THEN {<<>>}
                    \cup (IF e > 0 THEN {<<"E">> \o p : p \in Pats(n, e - 1)} ELSE {})
 AllPats(n, maxE) == UNION {Pats(n, e) : e \in 0..maxE}
 
-Img(n, h, shape, fam, comp, data, refs) ==
-  [n |-> n, hist |-> h, shape |-> shape, fam |-> fam, comp |-> comp, data |-> data, refs |-> refs]
+ImgA(n, h, shape, fam, comp, data, refs, alg) ==
+  [n |-> n, hist |-> h, shape |-> shape, fam |-> fam, comp |-> comp, data |-> data, refs |-> refs, alg |-> alg]
+Img(n, h, shape, fam, comp, data, refs) == ImgA(n, h, shape, fam, comp, data, refs, "sha256")
 
 \* the alignment universe: every image with <= 3 layers and every placement of <= 2 empty history entries
 ImagesAlign == UNION {{Img(n, h, "image", "oci", "gzip", FALSE, FALSE) : h \in AllPats(n, 2)} : n \in 1..3}
 ImagesShapes == {Img(2, <<"L", "E", "L">>, sh, fam, comp, data, refs) :
                    sh \in {"image", "index"}, fam \in {"oci", "docker"}, comp \in {"gzip", "none"}, data \in BOOLEAN, refs \in BOOLEAN}
                 \cup {Img(1, <<>>, "image", "oci", "gzip", FALSE, FALSE)}
+                \cup {ImgA(2, <<"L", "E", "L">>, sh, "oci", "gzip", data, TRUE, "sha512") : sh \in {"image", "index"}, data \in BOOLEAN}
 
 O(k) == [k |-> k, a |-> "", v |-> "", i |-> 0, s |-> {}]
 Oa(k, a) == [O(k) EXCEPT !.a = a]
@@ -43,7 +45,14 @@ OptsMeta == {Oa("AddLayer", "linux/amd64"), Os("RmCreatedBy", {}, "^nomatch$"), 
              O("LabelToAnnotation"), Oav("Label", "x", "y"), Oav("Label", "keep", "v"), Oav("Label", "[linux/arm64]x", "y"),
              Oav("Label", "nosuch", ""), Oav("Env", "x", "y"), Oav("Env", "E1", "v1"), Oav("Env", "E1", ""),
              Oa("Cmd", "/bin/app"), Oa("Cmd", "/bin/other"), Oa("Entrypoint", "/e"), Oa("ExposeAdd", "80/tcp"), Oa("ExposeRm", "80/tcp"),
-             Oa("VolumeAdd", "/v"), Oa("VolumeRm", "/v"), Oa("BuildArgRm", "zz"), Oa("ConfigTime", "set"), Oa("ConfigTime", "after")}
+             Oa("VolumeAdd", "/v"), Oa("VolumeRm", "/v"), Oa("BuildArgRm", "zz"), Oa("ConfigTime", "set"), Oa("ConfigTime", "after"),
+             \* second round: parameters and spellings that were held constant before
+             Oav("AddLayer", "", "application/vnd.oci.image.layer.v1.tar+zstd"), Oav("AddLayer", "", "application/vnd.oci.image.layer.v1.tar"),
+             Oav("AddLayer", "", "application/vnd.docker.image.rootfs.diff.tar.gzip"),
+             Oav("Annotation", "keep.anno", ""), Oav("Label", "keep", ""), Oa("Platform", "linux/amd64"), Oa("Platform", "linux/riscv64"),
+             Oa("ConfigTime", "label"), Oa("ConfigTime", "base1"), Oa("ConfigTime", "baseref"), Oa("ConfigTime", "fromlabel"),
+             Oa("LayerTime", "label"), Oa("LayerTime", "baseref"), Oa("LayerTime", "max"), Oa("LayerTime", "fromlabel"),
+             Oa("FileTarTime", "after"), Oa("StripFile", "/l3/")}
 OptsAll == OptsAlign \cup OptsMeta
 \* the interaction core for deeper programs
 OptsCore == {Oa("AddLayer", ""), Oi("RmIndex", 0), Oi("RmIndex", 1), Os("RmCreatedBy", {"L1", "L3"}, "^ADD L(1|3)$"),
